@@ -107,8 +107,10 @@ class World:
     One simulated process world.  `policy` is drawn once per run (swarm style).
     """
 
-    def __init__(self, ch: Choices, step_cap: int = 20000, policy: Optional[dict] = None):
+    def __init__(self, ch: Choices, step_cap: int = 20000, policy: Optional[dict] = None,
+                 ns: int = 0):
         self.ch = ch
+        self.ns = ns  # namespace for generated uuids (distinct per execution on one backend)
         self.clock = SimClock()
         self.step_cap = step_cap
         self.steps = 0
@@ -156,7 +158,7 @@ class World:
 
     def next_uuid(self) -> _uuid.UUID:
         self.uuid_counter += 1
-        h = hashlib.md5(f"simuuid-{self.uuid_counter}".encode()).digest()
+        h = hashlib.md5(f"simuuid-{self.ns}-{self.uuid_counter}".encode()).digest()
         return _uuid.UUID(bytes=h, version=4)
 
     def draw_duration(self) -> float:
@@ -567,10 +569,20 @@ def template_db() -> str:
     return path
 
 
+DB_GENERATION: dict[str, int] = {}
+
+
 def fresh_db(name: str) -> str:
     path = os.path.join(scratch_dir(), name)
     shutil.copyfile(template_db(), path)
+    DB_GENERATION[path] = 0
     return path
+
+
+def next_generation(path: str) -> int:
+    """Number of simulated executions started on this backend file so far (uuid namespace)."""
+    DB_GENERATION[path] = DB_GENERATION.get(path, 0) + 1
+    return DB_GENERATION[path]
 
 
 def open_backend(path: str, config: Optional[dict] = None):
